@@ -71,3 +71,126 @@ package prometheus
 //@   props C17 C18
 //@   requires addr != nil
 //@   ensures result.1 == nil ==> result.0 != nil
+
+// ---------------------------------------------------------------------------
+// Collectors: validity predicates
+// ---------------------------------------------------------------------------
+
+//@ pred validPC(c *proxyCollector) := c != nil && c.dataBytesPerKey != nil && c.dataBytesPerLocation != nil
+//@ pred validTCPSM(c *tcpServiceMetrics) := c != nil && validPC(c.proxyCollector) && c.probes != nil && c.openConnections != nil \
+//@    && c.closedConnections != nil && c.connectionDurationMs != nil && c.timeToCipherMs != nil
+//@ pred validUDPSM(c *udpServiceMetrics) := c != nil && validPC(c.proxyCollector) && c.packetsFromClientPerLocation != nil \
+//@    && c.addedNatEntries != nil && c.removedNatEntries != nil && c.timeToCipherMs != nil
+//@ pred validTCPCM(cm *tcpConnMetrics) := cm != nil && validTCPSM(cm.tcpServiceMetrics) && validTT(cm.tunnelTimeMetrics) && cm.localAddr != nil && cm.clientAddr != nil
+//@ pred validUDPCM(cm *udpConnMetrics) := cm != nil && validUDPSM(cm.udpServiceMetrics) && validTT(cm.tunnelTimeMetrics) && cm.clientAddr != nil
+//@ pred validSM(m *serviceMetrics) := m != nil && validTCPSM(m.tcpServiceMetrics) && validUDPSM(m.udpServiceMetrics) && validTT(m.tunnelTimeMetrics)
+
+// ---------------------------------------------------------------------------
+// Per-connection metrics (C15, C16, C17 pairing, C18)
+// ---------------------------------------------------------------------------
+
+//@ func addIfNonZero
+//@   props C15 C16 C18
+//@   requires counterVec != nil
+//@   trace[C15,adds-only-positive] never prometheus.Counter.Add when value <= 0
+//@   trace[C15,adds-once] exactly 1 prometheus.Counter.Add when value > 0
+
+//@ func (*proxyCollector).addClientTarget
+//@   props C15 C16 C18
+//@   requires validPC(c)
+//@ func (*proxyCollector).addTargetClient
+//@   props C15 C16 C18
+//@   requires validPC(c)
+
+//@ func (*tcpServiceMetrics).openConnection
+//@   props C15 C18
+//@   requires validTCPSM(c)
+//@   trace[C15,opened-once] exactly 1 prometheus.Counter.Inc
+//@ func (*tcpServiceMetrics).closeConnection
+//@   props C15 C18
+//@   requires validTCPSM(c)
+//@   trace[C15,closed-once] exactly 1 prometheus.Counter.Inc
+//@ func (*tcpServiceMetrics).addProbe
+//@   props C15 C18
+//@   requires validTCPSM(c)
+//@   trace[C15,probe-once] exactly 1 prometheus.Observer.Observe
+
+//@ func newTCPConnMetrics
+//@   props C15 C18
+//@   requires validTCPSM(tcpServiceMetrics) && validTT(tunnelTimeMetrics) && clientConn != nil
+//@   ensures result != nil && result.accessKey == ""
+//@   trace[C15,opened-once] exactly 1 prometheus.(*tcpServiceMetrics).openConnection
+//@   trace[C17,no-tunnel-before-auth] never prometheus.(*tunnelTimeMetrics).startConnection
+
+// Tunnel time for TCP starts only at authentication and stops at close iff authenticated.
+//@ func (*tcpConnMetrics).AddAuthenticated
+//@   props C15 C17 C18
+//@   requires validTCPCM(cm)
+//@   ensures cm.accessKey == accessKey
+//@   trace[C17,start-at-most-once] atmost 1 prometheus.(*tunnelTimeMetrics).startConnection
+//@   trace[C17,no-stop-at-auth] never prometheus.(*tunnelTimeMetrics).stopConnection
+
+//@ func (*tcpConnMetrics).AddClosed
+//@   props C15 C17 C18
+//@   requires validTCPCM(cm)
+//@   trace[C17,unauthenticated-never-stops] never prometheus.(*tunnelTimeMetrics).stopConnection when cm.accessKey == ""
+//@   trace[C17,stop-at-most-once] atmost 1 prometheus.(*tunnelTimeMetrics).stopConnection
+//@   trace[C17,no-start-at-close] never prometheus.(*tunnelTimeMetrics).startConnection
+//@   trace[C15,closed-once] exactly 1 prometheus.(*tcpServiceMetrics).closeConnection
+//@   trace[C15,bytes-reported] exactly 1 prometheus.(*proxyCollector).addClientTarget
+//@   trace[C15,bytes-reported-2] exactly 1 prometheus.(*proxyCollector).addTargetClient
+
+//@ func (*tcpConnMetrics).AddProbe
+//@   props C15 C18 C20
+//@   requires validTCPCM(cm)
+//@   trace[C15,probe-once] exactly 1 prometheus.(*tcpServiceMetrics).addProbe
+
+//@ func newUDPConnMetrics
+//@   props C16 C17 C18
+//@   requires validUDPSM(udpServiceMetrics) && validTT(tunnelTimeMetrics) && clientAddr != nil
+//@   ensures result != nil
+//@   trace[C16,added-once] exactly 1 prometheus.Counter.Inc
+//@   trace[C17,start-at-most-once] atmost 1 prometheus.(*tunnelTimeMetrics).startConnection
+
+//@ func (*udpConnMetrics).AddPacketFromClient
+//@   props C16 C18
+//@   requires validUDPCM(cm)
+//@ func (*udpConnMetrics).AddPacketFromTarget
+//@   props C16 C18
+//@   requires validUDPCM(cm)
+//@ func (*udpConnMetrics).RemoveNatEntry
+//@   props C16 C17 C18
+//@   requires validUDPCM(cm)
+//@   trace[C16,removed-once] exactly 1 prometheus.Counter.Inc
+//@   trace[C17,stop-at-most-once] atmost 1 prometheus.(*tunnelTimeMetrics).stopConnection
+//@   trace[C17,no-start-at-remove] never prometheus.(*tunnelTimeMetrics).startConnection
+
+//@ func (*udpServiceMetrics).addPacketFromClient
+//@   props C16 C18
+//@   requires validUDPSM(c)
+//@ func (*udpServiceMetrics).addPacketFromTarget
+//@   props C16 C18
+//@   requires validUDPSM(c)
+
+//@ func (*serviceMetrics).getIPInfoFromAddr
+//@   props C18 C20
+//@   requires m != nil
+//@ func (*serviceMetrics).AddOpenTCPConnection
+//@   props C15 C18 C20
+//@   requires validSM(m) && clientConn != nil
+//@   ensures result != nil
+//@ func (*serviceMetrics).AddUDPNatEntry
+//@   props C16 C18 C20
+//@   requires validSM(m) && clientAddr != nil
+//@   ensures result != nil
+//@ func (*serviceMetrics).AddCipherSearch
+//@   props C18
+//@   requires validSM(m)
+//@ func (*tcpServiceMetrics).AddCipherSearch
+//@   props C18
+//@   requires validTCPSM(c)
+//@ func (*udpServiceMetrics).AddCipherSearch
+//@   props C18
+//@   requires validUDPSM(c)
+//@ func asnLabel
+//@   props C18 C20
